@@ -15,7 +15,9 @@ WIDE = {"k%02d" % i: "v%d" % i for i in range(12)}
 
 ORDER_SENSITIVE = [("build", "default", b"FOO", b"d"), ("build", "append", b"FOO", b"a"), ("build", "prepend", b"FOO", b"p"), ("build", "delim", b"FOO", b"+"),
                    ("launch", "override", b"BAR", b"o"), ("launch", "append", b"BAR", b"a"), ("launch", "default", b"BAR", b"d"), ("process:web", "prepend", b"BAR", b"w"),
-                   ("process:web", "default", b"BAR", b"x")]
+                   ("process:web", "default", b"BAR", b"x"),
+                   # process scopes are plain strings: two that end in the same path component are two scopes
+                   ("process:jobs/web", "override", b"W", b"jobs"), ("process:other/web", "override", b"W", b"other"), ("process:web", "override", b"W", b"plain")]
 
 
 def widen_c01(steps):
@@ -142,6 +144,13 @@ def phase_script(r):
         plan.append(["requires_hashmap", "from-hashmap-%d" % g, 12])
         if g < 2:
             plan.append(["or"])
+    # alternatives that repeat an earlier one (the first, and the one just before): they are kept, in this order
+    for rep_g in (0, 2):
+        plan.append(["or"])
+        plan.append(["provides", "prov-%d-0" % rep_g])
+        plan.append(["requires", "req-%d-0" % rep_g, tomlw.tagged({"again": 0})])
+    plan.append(["or"])
+    plan.append(["provides", "last-alternative"])
     store = dict(WIDE)
     store["nested"] = dict(WIDE)
     return {"detect": {"result": "plan", "plan": plan},
